@@ -95,7 +95,8 @@ func (r *binaryReaderReader) Bytes(b []byte, n, off int64) ([]byte, error) {
 		m, err := r.r.Read(b[i:])
 		r.pos += int64(m)
 		i += m
-		if err != nil {
+		if err != nil && (err != io.EOF || i < int(n)) {
+			// io.EOF may come together with the last bytes: not an error when all n bytes arrived
 			return b[:i], err
 		} else if m == 0 {
 			return b[:i], errors.New("reader: could not read all bytes")
@@ -142,7 +143,7 @@ func (r *binaryReaderSeeker) Bytes(b []byte, n, off int64) ([]byte, error) {
 	for i := 0; i < int(n); {
 		m, err := r.r.Read(b[i:])
 		i += m
-		if err != nil {
+		if err != nil && (err != io.EOF || i < int(n)) {
 			r.mu.Unlock()
 			return b[:i], err
 		} else if m == 0 {
@@ -183,7 +184,7 @@ func (r *binaryReaderReaderAt) Bytes(b []byte, n, off int64) ([]byte, error) {
 	} else if b == nil {
 		b = make([]byte, n)
 	}
-	if m, err := r.r.ReadAt(b, off); err != nil {
+	if m, err := r.r.ReadAt(b, off); err != nil && (err != io.EOF || int64(m) < n) {
 		return b[:m], err
 	} else if int64(m) != n {
 		return b[:m], errors.New("reader: could not read all bytes")
